@@ -740,9 +740,18 @@ fn run_stress(v: &Value, out: &mut Vec<String>) {
         let vch = vchild();
         std::thread::spawn(move || {
             let mut pids = vec![];
-            for _ in 0..n {
+            // thread B prepares much longer than thread A (a large environment): its fork tends to come after a
+            // complete launch of A that began in the middle of B's
+            let big_env: Option<Vec<(std::ffi::OsString, std::ffi::OsString)>> = if piped {
+                None
+            } else {
+                Some((0..6000).map(|k| (format!("STRESS_VAR_{}", k).into(), "v".repeat(20).into())).collect())
+            };
+            let mut held: Vec<Popen> = vec![];
+            for _ in 0..(if piped { 4 * n } else { n }) {
                 let cfg = PopenConfig {
                     stdout: if piped { Redirection::Pipe } else { Redirection::None },
+                    env: big_env.clone(),
                     ..Default::default()
                 };
                 if let Ok(mut p) = Popen::create(&[vch.as_str(), "@exit", "0", tag], cfg) {
@@ -750,8 +759,17 @@ fn run_stress(v: &Value, out: &mut Vec<String>) {
                         pids.push(pid);
                     }
                     p.stdout.take();
-                    let _ = p.wait();
+                    held.push(p);
+                    // (reap in batches: the thread should spend its time launching)
+                    if held.len() >= 16 {
+                        for mut q in held.drain(..) {
+                            let _ = q.wait();
+                        }
+                    }
                 }
+            }
+            for mut q in held.drain(..) {
+                let _ = q.wait();
             }
             pids
         })
@@ -760,7 +778,7 @@ fn run_stress(v: &Value, out: &mut Vec<String>) {
     let b = mk("B", false, n);
     let mut pids = a.join().unwrap_or_default();
     pids.extend(b.join().unwrap_or_default());
-    out.push(json!({"e":"hresult","ok":pids.len() == 2 * n,"panicked":false}).to_string());
+    out.push(json!({"e":"hresult","ok":pids.len() == 5 * n,"panicked":false}).to_string());
     stage_reports(out, &pids);
 }
 
